@@ -591,6 +591,10 @@ func (cs *caseState) overFrameBefore(tun int, not dgID) string {
 	return ""
 }
 
+// overFrameKey: one finding - a payload within the configured udpPacketSize does not fit the control frame; it is
+// lost and (request direction) the tunnel stops forwarding for every user.
+const overFrameKey = "light-load-loss-payload-over-control-frame-limit"
+
 // overFrame: would this payload, base64-encoded inside a UDPPacket message, exceed the 10240-byte control frame?
 func overFrame(l int) bool { return 4*((l+2)/3)+54 > 10240 }
 
@@ -662,14 +666,14 @@ func (u *user) exchange(sp exSpec, wait time.Duration, must bool) bool {
 	cs.c.Ev("lost", "id", id.String(), "arrived_at_backend", arrived, "replies_missing", missing)
 	if big := cs.overFrameBefore(u.tun.Idx, id); big != "" && !overFrame(sp.L) {
 		// collateral damage: an earlier payload of this tunnel did not fit the control frame
-		cs.c.Violation("light-load-loss-after-over-frame-payload", "light load: exchange %v (%d bytes, replies %v) of user %d did not complete within %v (request reached the backend: %v) after %s had been sent through the same tunnel (%s)",
+		cs.c.Violation(overFrameKey, "light load: exchange %v (%d bytes, replies %v) of user %d did not complete within %v (request reached the backend: %v) after %s had been sent through the same tunnel (%s)",
 			id, sp.L, sp.RepL, u.Idx, wait+sp.Delay, arrived, big, u.tun.describe())
 		return false
 	}
 	if !arrived {
 		key := "light-load-datagram-lost"
 		if overFrame(sp.L) {
-			key = "light-load-datagram-lost-over-frame-limit"
+			key = overFrameKey
 		}
 		cs.c.Violation(key, "light load (one datagram outstanding per user): datagram %v of %d bytes sent by user %d to %s (%s) never reached the backend within %v",
 			id, sp.L, u.Idx, u.tun.Public, u.tun.describe(), wait+sp.Delay)
@@ -681,7 +685,7 @@ func (u *user) exchange(sp exSpec, wait time.Duration, must bool) bool {
 	}
 	for _, l := range ml {
 		if overFrame(l) {
-			key = "light-load-reply-lost-over-frame-limit"
+			key = overFrameKey
 		}
 	}
 	cs.c.Violation(key, "light load: the backend received datagram %v and sent %d replies (lengths %v, after %v) but %d (lengths %v) never reached user %d at %s within %v (%s)",
